@@ -241,11 +241,14 @@ static void c13_loop_pollers(int shard, long long seed, long long n) {
   for (long long k = 0; k < n; k++) {
     static const unsigned long bases[5] = {0UL, 0xFFFF0000UL, 0x7FFFFFF0UL, 0UL - 70000UL, 0xFFFFFFFFUL - 70000UL};
     g_base_ul = bases[rng.below(5)] + rng.below(2000); g_base = (uint32_t) g_base_ul; g_true_ms = 0;
-    int wiring = (int) rng.below(2);            // 0: no reference clock; 1: a reference clock that is never ready
-    LogClock ref; ref.ready = false;
-    TLoop c(wiring ? &ref : nullptr, nullptr, 3600, 5, 1000);
-    acetime_t T = (acetime_t) rng.range(1, 1500000000);
+    // 0: no reference clock; 1: a reference clock that is never ready; 2: one that answers every request with a time a
+    // little or a lot AHEAD of or BEHIND what the clock reads at that moment - being set through the loop is being set
+    int wiring = (int) rng.below(3);
+    LogClock ref; ref.ready = (wiring == 2);
+    TLoop c(wiring ? &ref : nullptr, nullptr, wiring == 2 ? 120 : 3600, 5, 1000);
+    acetime_t T = (acetime_t) rng.range(200000, 1500000000);
     c.setNow(T);
+    uint64_t setMs = 0;                          // true time of the last effective setting (T at 0)
     int steps = 3 + (int) rng.below(40);
     uint32_t maxgap = 0;
     for (int i = 0; i < steps; i++) {
@@ -258,11 +261,18 @@ static void c13_loop_pollers(int shard, long long seed, long long n) {
       }
       if (gap > maxgap) maxgap = gap;
       g_true_ms += gap;
+      if (wiring == 2) {
+        static const int deltas[] = {-100000, -1000, -100, 1, 7, 100, 100000};
+        acetime_t reading = (acetime_t) (T + (int64_t) ((g_true_ms - setMs) / 1000));
+        ref.response = reading + deltas[rng.below(7)];
+      }
+      size_t l0 = ref.log.size();
       c.loop();
       CNT.add("c13.loop_polls");
+      for (size_t q = l0; q < ref.log.size(); q++) if (ref.log[q].kind == 'r') { T = ref.log[q].v; setMs = g_true_ms; CNT.add("c13.settings_through_loop_sync"); }
     }
     acetime_t r = c.getNow();
-    acetime_t want = (acetime_t) (T + (int64_t) (g_true_ms / 1000));
+    acetime_t want = (acetime_t) (T + (int64_t) ((g_true_ms - setMs) / 1000));
     CNT.add("c13.loop_poller_schedules");
     if (g_true_ms > 65536) CNT.add("c13.loop_poller_schedules_longer_than_16_bits");
     if (r != want) {
